@@ -58,6 +58,9 @@ type Pair struct {
 	// CloseYields0 makes Close of end 0 yield the processor that many times before
 	// it has any effect (no virtual time passes: usable when locks are contended).
 	CloseYields0 int
+	// EOFWithData0: a Read of end 0 that drains the last bytes after the peer has
+	// closed returns them together with io.EOF.
+	EOFWithData0 bool
 	// WriteYields0 makes every Write of end 0 yield the processor that many times
 	// before it takes effect: two writes that should have been one are pulled apart.
 	WriteYields0 int
@@ -165,6 +168,11 @@ func (c *Conn) Read(b []byte) (int, error) {
 			p.buf[peer] = p.buf[peer][n:]
 			if len(p.buf[peer]) == 0 {
 				p.buf[peer] = nil
+				if me == 0 && p.EOFWithData0 && p.fin[peer] {
+					// io.Reader allows the last bytes and the end of the stream in one
+					// call; TLS-like wrappers and pipes of other libraries do that
+					return n, io.EOF
+				}
 			}
 			return n, nil
 		}
